@@ -53,6 +53,8 @@ TESTED_NOT_PROVED = [
     "float kernel bases annihilate S within 1e-9*max(1,|S|) and have full column rank (oracle, every case)",
     "witness m returned by compute_conservativity is > 0 and m^T S = 0 within 1e-8 (oracle, every case)",
     "numpy matrix_rank / scipy null_space / HiGHS verdicts equal the certified exact values (per input, every case)",
+    "completeness direction of is_consistent (a strictly positive flux exists => verdict True): depends on HiGHS succeeding on every feasible LP - tested per input "
+    "against the certified truth only (C17_consistent_complete_conditional states the verdict logic given the solver's answer)",
     "existence of a certificate (hard direction of Stiemke): the finder produced a checked certificate for every generated input",
     "integer_conservation_laws: count = species - rank (oracle); the integer / rational logic of _vector_to_minimal_integer and "
     "Fraction.limit_denominator is modelled (model/C17_IntLaws.v, compared entry by entry on networks, direct vectors and limit_denominator queries) "
